@@ -92,3 +92,6 @@ reg("C20", "plumb", configs=("pattern",))
 reg("C14", "extra", fn="check_asciifold", configs=("utf16",))
 reg("C07", "arm")
 reg("C09", "sibpos", configs=("utf16",))
+reg("C12", "negstr")
+reg("C14", "extra", fn="check_utf16bytes", configs=("default", "utf16"), per_config=False)
+reg("C06", "bts", configs=("default", "pu"))
